@@ -45,11 +45,14 @@ namespace glm
 			detail::float_t<T> const a(x[i]);
 			detail::float_t<T> const b(y[i]);
 
-			// Different signs means they do not match.
+			// Different signs: the values straddle zero, their distance is the sum of their distances to zero (so +0 == -0).
 			if(a.negative() != b.negative())
 			{
-				// Check for equality to make sure +0==-0
-				Result[i] = a.mantissa() == b.mantissa() && a.exponent() == b.exponent();
+				typedef typename detail::float_t<T>::int_type int_type;
+				int_type const MagA = a.i & std::numeric_limits<int_type>::max();
+				int_type const MagB = b.i & std::numeric_limits<int_type>::max();
+				int_type const Max = static_cast<int_type>(MaxULPs[i]);
+				Result[i] = MagA <= Max && MagB <= Max - MagA;
 			}
 			else
 			{
